@@ -1,19 +1,20 @@
-\* one channel, both surfaces, up to 3 unreported commits (chains of 4 crash images):
-\* 88,204 distinct / 1,686,891 generated states, depth 14, ~5 min with 6 workers on a loaded machine
-SPECIFICATION Spec9
+\* multi-item StoreAppendBatch calls as ONE commit: one channel, compat surface, keyless records (chains of two proposals,
+\* a proposal with its retry, cancelled calls), up to 2 unreported commits:
+\* 18,353 distinct / 848,224 generated states, depth 11, ~2 min with 4 idle workers (6 min at load 60)
+SPECIFICATION Spec9B
 CONSTANTS
   Chans = {"c1"}
   Ids = {1, 2}
   Froms = {"u1"}
-  Nos = {"n1"}
+  Nos = {""}
   Pays = {0}
-  Surfaces = {"typed", "compat"}
+  Surfaces = {"compat"}
   MaxSeq = 2
   MaxBatch = 1
   MaxOpen = 1
   HWs = {1}
   Pids = {1, 2}
-  MaxUnrep = 4
+  MaxUnrep = 3
   Epochs = {}
   ProbeIds <- MCProbeIds
   ProbeFroms <- MCProbeFroms
@@ -22,5 +23,5 @@ CONSTANTS
   KeepRmaxVariant = FALSE
 VIEW View9
 INVARIANTS TypeOK C07_IndexSound C08_KeyUnique C08_IdOnce C08_FilterCovers C09_EveryCrashImageSound C09_ViewIsNewest C09_WatermarkBelowLogEnd C09_LogEnd
-PROPERTIES C09_RecoversAPrefix C09_ReportKeeps
+PROPERTIES C09_RecoversAPrefix C09_ReportKeeps C09_BatchIsOneCommit
 CHECK_DEADLOCK FALSE
